@@ -467,29 +467,6 @@ def mergeStep [Geo V N] (s : Mesh V N) (dd ddup : Bool) : Option (Mesh V N) :=
   | none => none
   | some (nv, ni) => some { s with vertices := nv, indices := ni }
 
-/-- `set_flags` **as written on the pinned tree** -/
-def setFlagsW [Geo V N] (dim3 : Bool) (s : Mesh V N) (flags : Flags) : Option (Mesh V N × Option TopoErr) :=
-  let prevLen := s.indices.length
-  let s := if !flags.het then { s with topology := none } else s
-  let s := if dim3 && !flags.pnFamily then { s with pn := none } else s
-  let s := if !flags.ccf then { s with cc := none } else s
-  let diff := flags.diff s.flags
-  match (if diff.mergeFamily then mergeStepW dim3 s flags.delDegen flags.delDup else some s) with
-  | none => none
-  | some s =>
-  match (if diff.topoFamily then topoStepW s flags.delBad else some (s, none)) with
-  | none => none
-  | some (s, r) =>
-  match (if diff.ccf then ccStep s else some s) with
-  | none => none
-  | some s =>
-  match (if dim3 && diff.pnFamily then pnStep s else some s) with
-  | none => none
-  | some s =>
-  match (if prevLen != s.indices.length then rebuildQbvh s else some ()) with
-  | none => none
-  | some _ => some ({ s with flags := flags }, r)
-
 /-! `set_flags` with `fixes/C11-set-flags-stale.diff`, stage by stage.  `diff` is the Rust variable `difference`:
 what still has to be (re)computed; it is reset to `flags` as soon as the buffers have changed. -/
 
@@ -525,6 +502,28 @@ def setFlags [Geo V N] (dim3 : Bool) (s : Mesh V N) (flags : Flags) : Option (Me
   (pnStage dim3 s3 s2.2.2).bind fun s4 =>
   (qbvhStage s.indices.length s4).bind fun _ =>
   some ({ s4 with flags := flags }, s2.2.1)
+
+/-! `set_flags` **as written on the pinned tree**, stage by stage -/
+
+def dropStageW (dim3 : Bool) (s : Mesh V N) (flags : Flags) : Mesh V N :=
+  let s := if !flags.het then { s with topology := none } else s
+  let s := if dim3 && !flags.pnFamily then { s with pn := none } else s
+  if !flags.ccf then { s with cc := none } else s
+
+def mergeStageW [Geo V N] (dim3 : Bool) (s : Mesh V N) (flags diff : Flags) : Option (Mesh V N) :=
+  if diff.mergeFamily then mergeStepW dim3 s flags.delDegen flags.delDup else some s
+
+def topoStageW (s : Mesh V N) (flags diff : Flags) : Option (Mesh V N × Option TopoErr) :=
+  if diff.topoFamily then topoStepW s flags.delBad else some (s, none)
+
+/-- `set_flags` **as written on the pinned tree**: `difference` is never updated -/
+def setFlagsW [Geo V N] (dim3 : Bool) (s : Mesh V N) (flags : Flags) : Option (Mesh V N × Option TopoErr) :=
+  (mergeStageW dim3 (dropStageW dim3 s flags) flags (flags.diff s.flags)).bind fun s1 =>
+  (topoStageW s1 flags (flags.diff s.flags)).bind fun s2 =>
+  (ccStage s2.1 (flags.diff s.flags)).bind fun s3 =>
+  (pnStage dim3 s3 (flags.diff s.flags)).bind fun s4 =>
+  (qbvhStage s.indices.length s4).bind fun _ =>
+  some ({ s4 with flags := flags }, s2.2)
 
 def blank (vs : List V) (idx : List Tri) : Mesh V N :=
   { vertices := vs, indices := idx, pn := none, topology := none, cc := none, flags := Flags.empty }
